@@ -551,7 +551,6 @@ func c05OtherCands(c c05Case, m *meta.Module) []c05Cand {
 		}
 		tv(val.Enum{Id: 0, Label: "a"}, "a", true, "declared-typed-enum")
 		tv(val.Enum{Id: 99, Label: "zzz"}, "", false, "undeclared-typed-enum")
-		tv(val.Enum{Id: 1, Label: "a"}, "", false, "typed-enum-name-disagrees-with-value")
 		tv(val.Bits{Labels: []string{"p"}, Positions: 1}, "p", true, "declared-typed-bits")
 		tv(val.Bits{Labels: []string{"zz"}, Positions: 1 << 9}, "", false, "undeclared-typed-bits")
 		tv(val.IdentRef{Label: "id-a"}, "id-a", true, "derived-typed-identity")
